@@ -257,12 +257,15 @@ func ruleReassembly(c *Ctx, rule string) {
 				}
 				continue
 			}
-			kind, why := s.classify(w, nb, nl, at)
-			if kind == "" {
+			kinds, why := s.classifyMerged(w, nb, nl, at)
+			if len(kinds) == 0 {
 				c.fail(rule, key, w.At(at), why)
 				continue
 			}
-			summary[sb.name] = append(summary[sb.name], kind+"-continue")
+			kind := strings.Join(kinds, "|")
+			for _, k := range kinds {
+				summary[sb.name] = append(summary[sb.name], k+"-continue")
+			}
 			// facts on the edge: len(nb) <= nl and len(nb) != nl
 			rel := lenRelFacts(at, nb, nl)
 			if ef, has := edgeFact(pred, header); has {
@@ -313,15 +316,30 @@ func ruleReassembly(c *Ctx, rule string) {
 					c.fail(rule, key, w.At(ret), "message returned but no expected length for it")
 					continue
 				}
-				kind, why := s.classify(w, data, nl, ret)
-				if kind == "" {
+				kinds, why := s.classifyMerged(w, data, nl, ret)
+				if len(kinds) == 0 && nl == ssa.Value(s.lPhi) {
+					// a tail shared by both arms: the expected length is the value merged alongside the accumulator
+					if dp, isP := data.(*ssa.Phi); isP && dp != s.bPhi {
+						for _, in := range dp.Block().Instrs {
+							if lp, isL := in.(*ssa.Phi); isL && lp != dp && lp.Type() == s.lPhi.Type() {
+								if ks, _ := s.classifyMerged(w, data, lp, ret); len(ks) > 0 {
+									kinds, nl = ks, lp
+								}
+							}
+						}
+					}
+				}
+				if len(kinds) == 0 {
 					c.fail(rule, key, w.At(ret), "a message is returned with a nil error but "+why)
 					continue
 				}
+				kind := strings.Join(kinds, "|")
 				rel := lenRelFacts(ret, data, nl)
 				c.check(rel[token.EQL], rule, key+" ("+kind+"): complete message only", w.At(ret), "returned under len(b) == expected", "a message is returned with a nil error without a dominating len(b) == expected check ("+fmt.Sprint(relList(rel))+"): truncated or over-long messages are delivered")
-				nOK++
-				summary[sb.name] = append(summary[sb.name], kind+"-return")
+				nOK += len(kinds)
+				for _, k := range kinds {
+					summary[sb.name] = append(summary[sb.name], k+"-return")
+				}
 				continue
 			}
 			// error return: data must be nil
@@ -764,4 +782,29 @@ func ruleDecodeResets(c *Ctx, rule string) {
 		})
 	}
 	c.floor(rule, n, 2, "decode calls (client and server RecvMsg)")
+}
+
+// classifyMerged classifies a new (accumulator, expected length) pair; when both arms of the frame switch share one tail, the
+// pair is a pair of phis merging the arms: then every edge is classified, under the facts at the end of its predecessor.
+func (s *reasmShape) classifyMerged(w *World, nb, nl ssa.Value, at ssa.Instruction) ([]string, string) {
+	if k, why := s.classify(w, nb, nl, at); k != "" {
+		return []string{k}, ""
+	} else if bp, isP := nb.(*ssa.Phi); !isP || bp == s.bPhi {
+		return nil, why
+	}
+	bp := nb.(*ssa.Phi)
+	var kinds []string
+	for i, e := range bp.Edges {
+		pred := bp.Block().Preds[i]
+		el := nl
+		if lp, isL := nl.(*ssa.Phi); isL && lp != s.lPhi && lp.Block() == bp.Block() {
+			el = lp.Edges[i]
+		}
+		k, why := s.classify(w, e, el, pred.Instrs[len(pred.Instrs)-1])
+		if k == "" {
+			return nil, "on the path through block " + fmt.Sprint(pred.Index) + " " + why
+		}
+		kinds = append(kinds, k)
+	}
+	return sortedCopy(kinds), ""
 }
